@@ -13,6 +13,7 @@ package main
 import (
 	"context"
 	"os"
+	"runtime"
 	"strconv"
 	"sync"
 	"time"
@@ -93,4 +94,56 @@ func evJanitor(base string, backend string, firstMs, lastMs int) string {
 		res = "follows:latest"
 	}
 	return res + ";cycles=" + strconv.Itoa(cycles)
+}
+
+// `ev shutdown <backend> <order>`: a cache is shut down (order = destroy | cancel-destroy | destroy-cancel: how the owner's
+// context cancellation and Destroy() are sequenced, as main() and the tests do it differently), then the cleanup interval
+// is changed twice. A component that has been shut down is not notified of any later change: nothing may arrive in its
+// cleanup task's mailbox, and no notifier may stay parked on it.
+func evShutdown(base string, backend string, order string) string {
+	metrics.Global = metrics.NewMetrics()
+	cfg := config.NewDefault()
+	cfg.Cache.CleanupInterval.Overwrite(duration.Duration(time.Hour))
+	ctx, cancel := context.WithCancel(context.Background())
+	defer cancel()
+	var c janitorCache
+	if backend == "file" {
+		dir, _ := os.MkdirTemp(base, "shut-")
+		defer os.RemoveAll(dir)
+		c = cache.NewFileCache[int](cfg, dir, 1<<20, time.Hour, 4, ctx)
+	} else {
+		c = cache.NewMemoryCache[int](cfg, 50, 1<<20, time.Hour, 4, ctx)
+	}
+	time.Sleep(5 * time.Millisecond)
+	done := make(chan struct{})
+	go func() {
+		switch order {
+		case "cancel-destroy":
+			cancel()
+			time.Sleep(20 * time.Millisecond) // the cleanup task observes the cancellation first
+			c.Destroy()
+		case "destroy-cancel":
+			c.Destroy()
+			cancel()
+		default:
+			c.Destroy()
+		}
+		close(done)
+	}()
+	select {
+	case <-done:
+	case <-time.After(5 * time.Second):
+		return "HANG shutting the cache down does not return"
+	}
+	time.Sleep(5 * time.Millisecond)
+	before := runtime.NumGoroutine()
+	cfg.Cache.CleanupInterval.Overwrite(duration.Duration(7 * time.Minute))
+	time.Sleep(15 * time.Millisecond)
+	cfg.Cache.CleanupInterval.Overwrite(duration.Duration(9 * time.Minute))
+	time.Sleep(30 * time.Millisecond)
+	parked := runtime.NumGoroutine() - before
+	if parked < 0 {
+		parked = 0
+	}
+	return "mailbox=" + strconv.Itoa(c.VerifJanitorMailboxLen()) + ";parked=" + strconv.Itoa(parked)
 }
